@@ -297,10 +297,11 @@ fn print_case(sc: &Scenario, rec: &RunRecord, pubkey: &[u8]) {
         "{{| cc_cfg := {}; cc_rsa := {}; cc_psess := {}; cc_pauth := {}; cc_sauth := {}; cc_ssess := {}; \
          cc_status := {}; cc_auth := {}; cc_discover := {}; cc_filter := {}; cc_select := {}; cc_loc := {}; \
          cc_token := {}; cc_uuid := {}; cc_kaids := {}; cc_now := {}; cc_inbox := {}; cc_sent := {}; cc_calls := {}; \
-         cc_outcome := {}; cc_end := {}; cc_flags := {}; cc_maxalloc := {}; cc_biggest_in := {}; cc_order := {}; cc_note := \"{}\"%string; cc_segs := {}; cc_eof := {} |}}",
+         cc_outcome := {}; cc_end := {}; cc_flags := {}; cc_maxalloc := {}; cc_biggest_in := {}; cc_order := {}; cc_note := \"{}\"%string; cc_segs := {}; cc_eof := {}; cc_writes := {} |}}",
         cfg, rsa, g_list(&psess), g_list(&pauth), g_list(&sauth), g_list(&ssess),
         res("status"), res("auth"), res("discover"), res("filter"), res("select"), loc,
-        g_hex(&rec.token), g_hex(&uuid), kaids, sc.clock, inbox, sent, calls, rec.outcome, rec.end_ms, flags, rec.max_alloc, biggest_in, order, sc.note.replace('"', "'").replace('\\', "/"), segs, rec.eof_at.map(|t| t as i64).unwrap_or(-1)));
+        g_hex(&rec.token), g_hex(&uuid), kaids, sc.clock, inbox, sent, calls, rec.outcome, rec.end_ms, flags, rec.max_alloc, biggest_in, order, sc.note.replace('"', "'").replace('\\', "/"), segs, rec.eof_at.map(|t| t as i64).unwrap_or(-1),
+        g_list(&rec.write_calls.iter().map(|(_, o, a)| format!("({}, {})", o, g_z(*a))).collect::<Vec<_>>())));
 }
 
 /// payload of the StoreCookie (configuration phase, id 0x0A) with this key, if the server sent one
